@@ -254,7 +254,15 @@ def seeded(args):
             shutil.rmtree(os.path.join(base, sid), ignore_errors=True)
     finally:
         shutil.rmtree(base, ignore_errors=True)
-    with open(os.path.join(VERIF, "evidence", "selftest-seeded.json"), "w") as f:
+    path = os.path.join(VERIF, "evidence", "selftest-seeded.json")
+    if only and os.path.exists(path):
+        # a partial re-run (--only) updates the entries it ran and keeps the others
+        old = json.load(open(path))
+        merged = {r["id"]: r for r in old.get("results", [])}
+        merged.update({r["id"]: r for r in results})
+        results = [merged[k] for k in sorted(merged)]
+        bad = sum(1 for r in results if not r.get("as_expected", False))
+    with open(path, "w") as f:
         json.dump({"seed": args.seed, "wall_s": round(time.time() - t0, 1), "changes": len(results), "not_as_documented": bad, "results": results}, f, indent=1)
     log(f"selftest-seeded: {len(results)} changes, {bad} not as documented, {time.time() - t0:.0f}s")
     return 2 if bad else 0
